@@ -192,10 +192,10 @@ func valOptions(q *pb.QuoteV4, spare int) (*validate.Options, map[string][]byte)
 	}
 	t := q.TdQuoteBody
 	o := &validate.Options{HeaderOptions: validate.HeaderOptions{QeVendorID: mk(q.Header.QeVendorId)},
-		TdQuoteBodyOptions: validate.TdQuoteBodyOptions{MinimumTeeTcbSvn: mk(make([]byte, 16)), MrSeam: mk(t.MrSeam), MrTd: mk(t.MrTd), MrConfigID: mk(t.MrConfigId), MrOwner: mk(t.MrOwner),
+		TdQuoteBodyOptions: validate.TdQuoteBodyOptions{MinimumTeeTcbSvn: mk(t.TeeTcbSvn), TdAttributes: mk(t.TdAttributes), Xfam: mk(t.Xfam), MrSeam: mk(t.MrSeam), MrTd: mk(t.MrTd), MrConfigID: mk(t.MrConfigId), MrOwner: mk(t.MrOwner),
 			MrOwnerConfig: mk(t.MrOwnerConfig), ReportData: mk(t.ReportData), Rtmrs: [][]byte{mk(t.Rtmrs[0]), nil, mk(t.Rtmrs[2]), nil}, AnyMrTd: [][]byte{mk(make([]byte, 48)), mk(t.MrTd)}}}
 	to := o.TdQuoteBodyOptions
-	extra := map[string][]byte{"opt.qe_vendor_id": o.HeaderOptions.QeVendorID, "opt.min_tee_tcb_svn": to.MinimumTeeTcbSvn, "opt.mr_seam": to.MrSeam, "opt.mr_td": to.MrTd,
+	extra := map[string][]byte{"opt.qe_vendor_id": o.HeaderOptions.QeVendorID, "opt.min_tee_tcb_svn": to.MinimumTeeTcbSvn, "opt.td_attributes": to.TdAttributes, "opt.xfam": to.Xfam, "opt.mr_seam": to.MrSeam, "opt.mr_td": to.MrTd,
 		"opt.mr_config_id": to.MrConfigID, "opt.mr_owner": to.MrOwner, "opt.mr_owner_config": to.MrOwnerConfig, "opt.report_data": to.ReportData,
 		"opt.rtmr0": to.Rtmrs[0], "opt.rtmr2": to.Rtmrs[2], "opt.any_mr_td0": to.AnyMrTd[0], "opt.any_mr_td1": to.AnyMrTd[1]}
 	return o, extra
@@ -235,7 +235,8 @@ func TestC16(t *testing.T) {
 		if err != nil {
 			t.Fatal(err)
 		}
-		for _, src := range []string{"parsed", "arena", "proto-roundtrip", "built", "built-signed-data-size-unset", "chain-END-NUL-without-line-break", "chain-with-4th-block-and-NUL", "short-report-data-option"} {
+		for _, src := range []string{"parsed", "arena", "proto-roundtrip", "built", "built-signed-data-size-unset", "chain-END-NUL-without-line-break", "chain-with-4th-block-and-NUL", "short-report-data-option",
+			"option-mismatch:xfam", "option-mismatch:td_attributes", "option-mismatch:mr_td", "option-mismatch:min_tee_tcb_svn", "option-mismatch:any_mr_td", "option-mismatch:rtmr2"} {
 			var q *pb.QuoteV4
 			refused := false // the construction is one the checks (some of them) are expected to refuse: only the memory is compared
 			extra := map[string][]byte{}
@@ -273,7 +274,8 @@ func TestC16(t *testing.T) {
 				q.SignedData.CertificationData.Size += delta
 				q.SignedDataSize += delta
 				refused = true
-			case "short-report-data-option":
+			case "short-report-data-option", "option-mismatch:xfam", "option-mismatch:td_attributes", "option-mismatch:mr_td", "option-mismatch:min_tee_tcb_svn",
+				"option-mismatch:any_mr_td", "option-mismatch:rtmr2":
 				q = proto.Clone(w.Quote).(*pb.QuoteV4)
 				refused = true
 			case "built-signed-data-size-unset":
@@ -292,6 +294,33 @@ func TestC16(t *testing.T) {
 				buf = append(buf, bytes.Repeat([]byte{sentinel}, 32)...)
 				vo.TdQuoteBodyOptions.ReportData = buf[:32]
 				optExtra["opt.report_data(short)"] = buf[:32]
+			}
+			if what, ok := strings.CutPrefix(src, "option-mismatch:"); ok {
+				// an expectation the quote does NOT meet (the error path of the comparison): distinct, non-palindromic bytes so that
+				// any rearrangement shows; the option's memory is the caller's on this path too
+				odd := func(b []byte) {
+					for i := range b {
+						b[i] = byte(0x11*(i+1)) ^ b[i]
+					}
+				}
+				to := &vo.TdQuoteBodyOptions
+				switch what {
+				case "xfam":
+					odd(to.Xfam)
+				case "td_attributes":
+					odd(to.TdAttributes)
+				case "mr_td":
+					odd(to.MrTd)
+					odd(to.AnyMrTd[1])
+				case "min_tee_tcb_svn":
+					for i := range to.MinimumTeeTcbSvn {
+						to.MinimumTeeTcbSvn[i] = 0xf0 | byte(i)
+					}
+				case "any_mr_td":
+					odd(to.AnyMrTd[1])
+				case "rtmr2":
+					odd(to.Rtmrs[2])
+				}
 			}
 			for k, v := range optExtra {
 				extra[k] = v
